@@ -171,7 +171,7 @@ def scaling(origin, destination):
         scale = PREFIX_FACTORS[org_prefix]
     elif not org_prefix and dest_prefix:
         scale = 1.0 / PREFIX_FACTORS[dest_prefix]
-    elif not org_prefix and not dest_prefix:
+    elif org_prefix and dest_prefix:
         scale = PREFIX_FACTORS[org_prefix] / PREFIX_FACTORS[dest_prefix]
 
     if org_power:
@@ -193,9 +193,9 @@ def split(combined_unit):
     prefix_re = "(?P<prefix>{})".format(PREFIXES)
     unit_re = "(?P<unit>{})".format(UNITS)
     power_re = "(?P<power>{})".format(POWER)
-    pup = re.compile(prefix_re + unit_re + power_re)
-    prefix_matcher = re.compile(prefix_re + unit_re)
-    unit_matcher = re.compile(unit_re + power_re)
+    pup = re.compile(prefix_re + unit_re + power_re + "$")
+    prefix_matcher = re.compile(prefix_re + unit_re + "$")
+    unit_matcher = re.compile(unit_re + power_re + "$")
     # u = re.compile(unit_re)
     # p = re.compile(prefix_re)
 
